@@ -239,7 +239,8 @@ def run(repo: Repo, rep: Report, tier: str) -> None:
                     if r.entry.family == "optional" or (r.entry.elem or "").startswith("opt") or "Optional" in r.entry.name]
             check_rows(rep, rows, "R11.9", mod, "Optional resolution differs from `convert if not None else None`")
     rep.floor("R11.9", 30)
-
+    from ..core import siblings as _sib4
+    _sib4.check_special_primitive_mirror(repo, rep, "R11.10")
 
 def _literal(repo: Repo, rep: Report, tier: str) -> None:
     c = corpus_mod.explore_all(repo, tier)
@@ -326,3 +327,6 @@ def _pack_union(repo: Repo, rep: Report, tier: str) -> None:
                           "identity members must be tested by class first, the others tried under `except Exception` in declaration order, ending in a raise",
                           generated=r.describe(r.src)[:800])
     rep.floor("R11.8", 3)
+_ADD17 = ' R11.10: pack_special_typing_primitive and unpack_special_typing_primitive share one decision skeleton (same cases, same order, same tests).'
+EXPLANATION += _ADD17
+LEVEL_TEXT += _ADD17
